@@ -52,7 +52,10 @@ func genC11(r *vc.Run) {
 				continue
 			}
 			proveBad(r, "schnorr-wrong-dlog/"+cn, "schnorr_prove", []val.V{val.A(cn), val.B(session), val.I(x), val.I(a)}, "schnorr_verify",
-				func(p val.V) []val.V { pl := val.AsList(p); return []val.V{val.A(cn), val.B(session), xl[1], pl[0], pl[1]} })
+				func(p val.V) []val.V {
+					pl := val.AsList(p)
+					return []val.V{val.A(cn), val.B(session), xl[1], pl[0], pl[1]}
+				})
 		}
 	}
 	kA, kB := keys[0], keys[1]
@@ -218,7 +221,7 @@ func genC11(r *vc.Run) {
 				{leafPath{8, 7}, []*big.Int{add(q, -1)}, "S2"}, {leafPath{8, 9}, []*big.Int{add(q, -1)}, "T2"}}
 		case "fac_verify":
 			b := mul(q3, new(big.Int).Sqrt(val.AsInt(in.args[2])))
-			ps = []push{{leafPath{6, 6}, []*big.Int{b, add(b, 1), mul(b, big.NewInt(2)), big.NewInt(-1)}, "Z1"}, {leafPath{6, 7}, []*big.Int{b, add(b, 1), mul(b, big.NewInt(1 << 20))}, "Z2"}}
+			ps = []push{{leafPath{6, 6}, []*big.Int{b, add(b, 1), mul(b, big.NewInt(2)), big.NewInt(-1)}, "Z1"}, {leafPath{6, 7}, []*big.Int{b, add(b, 1), mul(b, big.NewInt(1<<20))}, "Z2"}}
 		}
 		for _, p := range ps {
 			for _, v := range p.vals {
@@ -303,6 +306,115 @@ func genC12(r *vc.Run) {
 		}
 	}
 	_ = q
+	c12Shifts(r, insts)
+	// the challenge derivation itself: with the provers' randomness fixed, model and implementation must produce identical proofs
+	// (a component missing from, or added to, the hashed transcript changes every response)
+	c10Light = true
+	c10Body(r)
+	c10Light = false
+}
+
+// c12Shifts: re-simulation attacks. For a commitment a and response z linked by g^z = a * y^c, the pair (a*g^d, z+d) satisfies the
+// verification equation under the SAME challenge c; it must be rejected because a is part of the hashed transcript.
+func c12Shifts(r *vc.Run, insts []instance) {
+	expm := func(b, e, m *big.Int) *big.Int { return new(big.Int).Exp(b, e, m) }
+	mulm := func(a, b, m *big.Int) *big.Int { return new(big.Int).Mod(new(big.Int).Mul(a, b), m) }
+	try := func(in instance, what string, args []val.V) {
+		o := r.Case("shift/"+in.label+"/"+what, true, in.op, args...)
+		if accepted(o) {
+			r.Violate("shift-attack|"+opSite(in.op)+"|"+what, fmt.Sprintf("%s accepts a re-simulated commitment/response pair (%s): the commitment is not bound by the challenge", opSite(in.op), what), vc.Line(in.op, args))
+		}
+	}
+	for _, in := range insts {
+		switch in.op {
+		case "dln_verify":
+			h1, N := val.AsInt(in.args[0]), val.AsInt(in.args[2])
+			al, ts := val.AsInts(in.args[3]), val.AsInts(in.args[4])
+			for _, i := range []int{0, 1, 2, 63, 64, 126, 127} {
+				for _, d := range []int64{1, 12345} {
+					na, nt := append([]*big.Int{}, al...), append([]*big.Int{}, ts...)
+					na[i] = mulm(al[i], expm(h1, big.NewInt(d), N), N)
+					nt[i] = add(ts[i], d)
+					try(in, fmt.Sprintf("alpha[%d]", i), []val.V{in.args[0], in.args[1], in.args[2], val.Ints(na), val.Ints(nt)})
+				}
+			}
+		case "schnorrv_verify":
+			cn := val.AsAtom(in.args[0])
+			for _, dv := range []int64{1, 777} {
+				// alpha + d*R with t + d ; alpha + d*G with u + d
+				dR, _ := vc.Exec("ec_smul", []val.V{val.A(cn), in.args[3], val.I64(dv)})
+				dG, _ := vc.Exec("ec_base_mul", []val.V{val.A(cn), val.I64(dv)})
+				for k, sh := range []val.V{dR, dG} {
+					na, _ := vc.Exec("ec_add", []val.V{val.A(cn), in.args[4], val.AsList(sh)[1]})
+					nl, ok := na.(val.List)
+					if !ok || len(nl) != 2 {
+						continue
+					}
+					t, u := val.AsInt(in.args[5]), val.AsInt(in.args[6])
+					if k == 0 {
+						t = add(t, dv)
+					} else {
+						u = add(u, dv)
+					}
+					try(in, []string{"alpha+dR", "alpha+dG"}[k], []val.V{in.args[0], in.args[1], in.args[2], in.args[3], nl[1], val.I(t), val.I(u)})
+				}
+			}
+		case "alice_verify":
+			// [z u w s s1 s2]: w = h1^s1 h2^s2 z^-e mod NTilde ; u = Gamma^s1 s^N c^-e mod N^2
+			N, nt, h2 := val.AsInt(in.args[1]), val.AsInt(in.args[2]), val.AsInt(in.args[4])
+			p := val.AsInts(in.args[6])
+			N2 := mul(N, N)
+			for _, d := range []int64{1, 4242} {
+				np := append([]*big.Int{}, p...)
+				np[2] = mulm(p[2], expm(h2, big.NewInt(d), nt), nt)
+				np[5] = add(p[5], d)
+				try(in, "w", append(append([]val.V{}, in.args[:6]...), val.Ints(np)))
+				np = append([]*big.Int{}, p...)
+				x := big.NewInt(d + 1)
+				np[1] = mulm(p[1], expm(x, N, N2), N2)
+				np[3] = mulm(p[3], x, N)
+				try(in, "u", append(append([]val.V{}, in.args[:6]...), val.Ints(np)))
+			}
+		case "bob_verify", "bobwc_verify":
+			// [z z' t v w s s1 s2 t1 t2]: z' z^e = h1^s1 h2^s2 ; w t^e = h1^t1 h2^t2 (mod NTilde) ; c1^s1 s^N Gamma^t1 = c2^e v (mod N^2)
+			N, nt, h2 := val.AsInt(in.args[2]), val.AsInt(in.args[3]), val.AsInt(in.args[5])
+			p := val.AsInts(in.args[8])
+			N2 := mul(N, N)
+			rebuild := func(np []*big.Int) []val.V {
+				a := append([]val.V{}, in.args...)
+				a[8] = val.Ints(np)
+				return a
+			}
+			for _, d := range []int64{1, 4242} {
+				np := append([]*big.Int{}, p...)
+				np[1] = mulm(p[1], expm(h2, big.NewInt(d), nt), nt)
+				np[7] = add(p[7], d)
+				try(in, "zprm", rebuild(np))
+				np = append([]*big.Int{}, p...)
+				np[4] = mulm(p[4], expm(h2, big.NewInt(d), nt), nt)
+				np[9] = add(p[9], d)
+				try(in, "w", rebuild(np))
+				np = append([]*big.Int{}, p...)
+				x := big.NewInt(d + 1)
+				np[3] = mulm(p[3], expm(x, N, N2), N2)
+				np[5] = mulm(p[5], x, N)
+				try(in, "v", rebuild(np))
+			}
+		case "fac_verify":
+			// [P Q A B T sigma z1 z2 w1 w2 v]: s^z1 t^w1 = A P^e ; s^z2 t^w2 = B Q^e ; Q^z1 t^v = T R^e   (s = h1, t = h2 of the verifier, mod NTilde)
+			nt, h2 := val.AsInt(in.args[3]), val.AsInt(in.args[5])
+			p := val.AsInts(in.args[6])
+			for _, d := range []int64{1, 4242} {
+				for _, pr := range [][3]interface{}{{2, 8, "A"}, {3, 9, "B"}, {4, 10, "T"}} {
+					ci, ri := pr[0].(int), pr[1].(int)
+					np := append([]*big.Int{}, p...)
+					np[ci] = mulm(p[ci], expm(h2, big.NewInt(d), nt), nt)
+					np[ri] = add(p[ri], d)
+					try(in, pr[2].(string), append(append([]val.V{}, in.args[:6]...), val.Ints(np)))
+				}
+			}
+		}
+	}
 }
 
 func leafAt(args []val.V, p leafPath) *big.Int {
